@@ -167,7 +167,8 @@ Proof.
     destruct (Z.eqb (n_ts n) (n_ts old) && notif_eqb old n); [intros H; discriminate H|].
     destruct (n_atomic n); [intros H; discriminate H|].
     destruct (n_upd old) as [|uo rest] eqn:Eo; [congruence|].
-    destruct (equal_gen (f_equal fl) (u_val uo) v) eqn:Ee; try (intros H; discriminate H).
+    destruct (equal_gen (f_equal fl) (u_val uo) v) as [[|]|e|w1] eqn:Ee;
+      try (intros H; discriminate H); [destruct (f_event fl); intros H; discriminate H|].
     intros H; inversion H; subst.
     unfold wire_notif in Hw. rewrite Eo in Hw. cbn in Hw. apply andb_true_iff in Hw as [Hw _].
     destruct (equal_gen_panic_inv _ _ _ _ Hw Hv Ee) as (H1 & _ & H3). auto.
@@ -240,6 +241,27 @@ Proof.
   destruct (qmatch q s && c v); [discriminate|]. inversion Hs; subst. eauto.
 Qed.
 
+Lemma lat_mark_tree t r : ts_tree (lat_mark t r) = ts_tree t.
+Proof. unfold lat_mark. destruct (ts_sync t && r); reflexivity. Qed.
+
+(** the tree after the existing-leaf switch / add: unchanged, the leaf
+    overwritten, or the new leaf added *)
+Lemma update_leaf_tree t p v n :
+  let tr' := ts_tree (fst (update_leaf fl t p v n)) in
+  tr' = ts_tree t \/ tr' = tree_set (ts_tree t) p n \/ CTreeModel.add (ts_tree t) p n = Some tr'.
+Proof.
+  unfold update_leaf.
+  destruct (CTreeModel.get (ts_tree t) p) as [[old|cs]|]; cbn [fst]; [|now left|].
+  - destruct (Z.ltb _ _); cbn [fst]; [now left|].
+    destruct (_ && _); cbn [fst]; [now left|]. right; left.
+    destruct (n_atomic n); cbn [fst]; [now rewrite lat_mark_tree|].
+    destruct (n_upd old); cbn [fst ts_tree]; [reflexivity|].
+    destruct (equal_gen _ _ _) as [[|]|e|w]; cbn [fst ts_tree]; rewrite ?lat_mark_tree; try reflexivity.
+    destruct (f_event fl); cbn [fst ts_tree]; rewrite ?lat_mark_tree; reflexivity.
+  - destruct (CTreeModel.add (ts_tree t) p n) eqn:Ea; cbn [fst ts_tree]; [|now left].
+    right; right. now rewrite lat_mark_tree.
+Qed.
+
 Lemma gnmi_update1_ok t n :
   tree_ok (ts_tree t) -> stored_ok n -> tree_ok (ts_tree (fst (gnmi_update1 fl t n))).
 Proof.
@@ -250,16 +272,10 @@ Proof.
   assert (Ht1 : ts_tree t1 = ts_tree t).
   { replace t1 with (fst (update_pre fl t p (u_val u))) by now rewrite Ep. apply update_pre_tree. }
   destruct o as [x|e|w]; cbn [fst]; try (rewrite Ht1; assumption).
-  unfold update_leaf. rewrite Ht1.
-  destruct (CTreeModel.get (ts_tree t) p) as [[old|cs]|]; cbn [fst]; try (rewrite Ht1; assumption).
-  - destruct (Z.ltb _ _); cbn [fst]; [rewrite Ht1; assumption|].
-    destruct (_ && _); cbn [fst]; [rewrite Ht1; assumption|].
-    assert (tree_ok (tree_set (ts_tree t) p n)) by now apply tree_ok_tree_set.
-    destruct (n_atomic n); cbn [fst ts_tree]; [assumption|].
-    destruct (n_upd old); cbn [fst ts_tree]; [assumption|].
-    destruct (equal_gen _ _ _); cbn [fst ts_tree]; assumption.
-  - destruct (CTreeModel.add (ts_tree t) p n) eqn:Ea; cbn [fst ts_tree]; [|rewrite Ht1; assumption].
-    eapply tree_ok_add; eauto.
+  destruct (update_leaf_tree t1 p (u_val u) n) as [E|[E|E]]; cbn zeta in E; rewrite Ht1 in E.
+  - rewrite E. assumption.
+  - rewrite E. now apply tree_ok_tree_set.
+  - eapply tree_ok_add; eauto.
 Qed.
 
 Lemma gnmi_remove_ok t n :
@@ -547,7 +563,8 @@ Proof.
     destruct (_ && _); [intros H; inversion H; subst; assumption|].
     destruct (n_atomic n); [intros H; discriminate H|].
     destruct (n_upd old); [intros H; discriminate H|].
-    destruct (equal_gen _ _ _); intros H; discriminate H.
+    destruct (equal_gen _ _ _) as [[|]|e2|w2]; try (intros H; discriminate H).
+    destruct (f_event fl); intros H; discriminate H.
   - intros H; inversion H; subst; assumption.
   - destruct (CTreeModel.add (ts_tree t1) p n); intros H; inversion H; subst; assumption.
 Qed.
@@ -954,7 +971,7 @@ Definition wit_poison : notif :=
 
 Lemma meta_refresh_refuted_lemma :
   exists c n, st_wf c /\ wire_notif n = true /\
-    snd (ingest all_defects c n) = GOk /\ exists w, refresh (fst (ingest all_defects c n)) = Panic w.
+    snd (ingest all_defects c n) = GOk /\ exists w, refresh all_defects (fst (ingest all_defects c n)) = Panic w.
 Proof.
   exists wit_c0, wit_poison. split; [apply wit_c0_wf|]. split; [reflexivity|].
   split; [vm_compute; reflexivity|]. exists panic_meta_assert. vm_compute. reflexivity.
@@ -962,7 +979,7 @@ Qed.
 
 Example meta_refresh_patched_example :
   snd (ingest cur_flags wit_c0 wit_poison) = GErr err_meta_type /\
-  refresh (fst (ingest cur_flags wit_c0 wit_poison)) = Ok tt.
+  refresh cur_flags (fst (ingest cur_flags wit_c0 wit_poison)) = Ok tt.
 Proof. split; vm_compute; reflexivity. Qed.
 
 Lemma subscribe_needs_peer :
@@ -1059,18 +1076,12 @@ Proof.
   assert (Hk : forall k, p = [md_root; k] -> kind_ok k (u_val u) = true).
   { intros k ->. eapply update_pre_kind; eauto. }
   destruct Hok as [Hwf Hst].
-  unfold update_leaf. rewrite Ht1.
-  destruct (CTreeModel.get (ts_tree t) p) as [[old|cs]|]; cbn [fst]; try (rewrite Ht1; assumption).
-  - destruct (Z.ltb _ _); cbn [fst]; [rewrite Ht1; assumption|].
-    destruct (_ && _); cbn [fst]; [rewrite Ht1; assumption|].
-    assert (Hset : meta_typed (tree_set (ts_tree t) p n)).
-    { unfold tree_set. destruct (CTreeModel.add (ts_tree t) p n) as [tr'|] eqn:Ea; [|assumption].
-      eapply meta_typed_store; eauto. }
-    destruct (n_atomic n); cbn [fst ts_tree]; [assumption|].
-    destruct (n_upd old); cbn [fst ts_tree]; [assumption|].
-    destruct (equal_gen _ _ _); cbn [fst ts_tree]; assumption.
-  - destruct (CTreeModel.add (ts_tree t) p n) as [tr'|] eqn:Ea; cbn [fst ts_tree]; [|rewrite Ht1; assumption].
+  destruct (update_leaf_tree fl t1 p (u_val u) n) as [E|[E|E]]; cbn zeta in E; rewrite Ht1 in E.
+  - rewrite E. assumption.
+  - rewrite E. unfold tree_set.
+    destruct (CTreeModel.add (ts_tree t) p n) as [tr'|] eqn:Ea; [|assumption].
     eapply meta_typed_store; eauto.
+  - eapply meta_typed_store; eauto.
 Qed.
 
 Lemma meta_typed_delete tr q c : wf_tree tr -> meta_typed tr -> meta_typed (fst (delete_cond tr q c)).
@@ -1165,7 +1176,7 @@ Lemma refresh_one_ok tr k f :
   tree_ok tr -> (forall n, lookup tr [md_root; k] = Some n -> f (first_val n) = true) ->
   refresh_one tr k f = false.
 Proof.
-  intros [_ Hst] Hf. unfold refresh_one, leaf_first_val.
+  intros [_ Hst] Hf. unfold refresh_one, refresh_at, leaf_first_val.
   destruct (lookup tr [md_root; k]) as [prev|] eqn:E; [|reflexivity].
   destruct (Hst _ _ E) as [Hne _]. specialize (Hf prev eq_refl). unfold first_val in Hf.
   destruct (n_upd prev); [congruence|]. now rewrite Hf.
@@ -1185,10 +1196,14 @@ Proof.
   rewrite H by now left. apply IH. intros; apply H; now right.
 Qed.
 
-Theorem refresh_total_lemma c : st_wf2 c -> refresh c = Ok tt.
+(** without the server-name and latency options the guards at ingest suffice,
+    even while the assertions of the refresh are unchecked *)
+Theorem refresh_total_lemma fl c :
+  f_server_name fl = false -> f_latency fl = false -> st_wf2 c -> refresh fl c = Ok tt.
 Proof.
-  intros Hc. unfold refresh. rewrite existsb_false; [reflexivity|].
+  intros O1 O2 Hc. unfold refresh. rewrite existsb_false; [now rewrite andb_false_r|].
   intros [k t] Hin. destruct (Hc k t Hin) as [_ [Hok Hm]]. cbn [snd]. unfold refresh_panics.
+  rewrite O1, O2. cbn [andb]. rewrite !orb_false_r.
   rewrite (existsb_false _ md_bool_names), (existsb_false _ md_int_names).
   - rewrite (refresh_one_ok _ md_connected_addr is_str Hok), (refresh_one_ok _ md_connect_error is_str Hok).
     + now rewrite andb_false_r.
@@ -1197,6 +1212,50 @@ Proof.
   - intros x Hx. apply refresh_one_ok; [assumption|]. intros n Hn. rewrite <- (kind_ok_int x _ Hx). exact (Hm _ _ Hn).
   - intros x Hx. apply refresh_one_ok; [assumption|]. intros n Hn. rewrite <- (kind_ok_bool x _ Hx). exact (Hm _ _ Hn).
 Qed.
+
+(** with the patch (checked assertions) the refresh cannot panic, whatever is stored *)
+Lemma refresh_total_patched fl c : f_refresh fl = false -> refresh fl c = Ok tt.
+Proof. intros F. unfold refresh. now rewrite F. Qed.
+
+(** HEAD before C12_5: every other patch in, options on *)
+Definition head_flags_opts : flags := Flags false false false false true true true true.
+
+Definition wit_sync : notif :=
+  Notif 1 wit_t1 [Upd (Some (GPath "" "" [("meta", []); ("sync", [])] [])) (TVBool true)] [] false.
+Definition wit_real : notif := Notif 2 wit_t1 [Upd wit_ab (TVInt 1)] [] false.
+Definition wit_server_name : notif :=
+  Notif 1 wit_t1 [Upd (Some (GPath "" "" [("meta", []); ("serverName", [])] [])) (TVInt 1)] [] false.
+Definition wit_latency : notif :=
+  Notif 3 wit_t1 [Upd (Some (GPath "" "" [("meta", []); ("latency", []); ("window", []); ("10ns", []); ("avg", [])] []))
+                      (TVString "x")] [] false.
+
+Lemma meta_refresh_refuted_server_name :
+  exists c n, st_wf c /\ wire_notif n = true /\
+    snd (ingest head_flags_opts c n) = GOk /\
+    exists w, refresh head_flags_opts (fst (ingest head_flags_opts c n)) = Panic w.
+Proof.
+  exists wit_c0, wit_server_name. split; [apply wit_c0_wf|]. split; [reflexivity|].
+  split; [vm_compute; reflexivity|]. exists panic_meta_assert. vm_compute. reflexivity.
+Qed.
+
+Definition wit_c2 : cstate :=
+  fst (ingest head_flags_opts (fst (ingest head_flags_opts wit_c0 wit_sync)) wit_real).
+
+Lemma meta_refresh_refuted_latency :
+  exists c n, st_wf c /\ wire_notif n = true /\
+    snd (ingest head_flags_opts c n) = GOk /\
+    exists w, refresh head_flags_opts (fst (ingest head_flags_opts c n)) = Panic w.
+Proof.
+  exists wit_c2, wit_latency. split.
+  - apply ingest_preserves_wf; [apply ingest_preserves_wf; [apply wit_c0_wf|reflexivity]|reflexivity].
+  - split; [reflexivity|]. split; [vm_compute; reflexivity|]. exists panic_meta_assert. vm_compute. reflexivity.
+Qed.
+
+(** without a latency sample the poisoned latency leaf is not read *)
+Example meta_refresh_latency_unset_example :
+  snd (ingest head_flags_opts wit_c0 wit_latency) = GOk /\
+  refresh head_flags_opts (fst (ingest head_flags_opts wit_c0 wit_latency)) = Ok tt.
+Proof. split; vm_compute; reflexivity. Qed.
 
 (** * A multi notification whose every update was rejected leaves the data unchanged *)
 
@@ -1265,12 +1324,12 @@ Fixpoint ingest_obs_ok (before : tdump) (steps : list (iop * iobs)) : Prop :=
 Lemma app_nil_inv {A} (a b : list A) : a ++ b = [] -> a = [] /\ b = [].
 Proof. destruct a; cbn; [auto|discriminate]. Qed.
 
-Lemma check_ingest_sound steps : forall i c before,
-  check_ingest i c before steps = [] -> ingest_obs_ok before steps.
+Lemma check_ingest_sound fl steps : forall i c before,
+  check_ingest fl i c before steps = [] -> ingest_obs_ok before steps.
 Proof.
   induction steps as [|[o b] steps IH]; intros i c before; cbn [check_ingest ingest_obs_ok]; [auto|].
   destruct o as [n|]; destruct b as [r od|p]; try discriminate.
-  - destruct (ingest cur_flags c n) as [c' g].
+  - destruct (ingest fl c n) as [c' g].
     intros H. apply app_nil_inv in H as [_ H]. apply app_nil_inv in H as [H2 H3].
     split; [|split].
     + intros ->. cbn in H2. destruct (ingest_known before n); discriminate H2.
@@ -1280,14 +1339,15 @@ Proof.
     + eapply IH; eauto.
   - intros H. apply app_nil_inv in H as [_ H]. apply app_nil_inv in H as [H2 H3].
     split; [|eapply IH; eauto].
-    destruct p; [|reflexivity]. cbn in H2. destruct (class_refresh before); discriminate H2.
+    destruct p; [|reflexivity]. cbn in H2. destruct (class_refresh before); [discriminate H2|].
+    destruct (class_refresh5 before); discriminate H2.
 Qed.
 
 (** the property on the observations of the other three kinds of case: no panic
     (for Subscribe: unless the environment assumption is violated) *)
 Definition case_obs_ok (c : case) : Prop :=
   match c with
-  | CIngest targets steps =>
+  | CIngest _ targets steps =>
       if existsb (String.eqb "") targets then True    (* outside the property *)
       else ingest_obs_ok (model_dump (new_cstate targets)) steps
   | CSub e _ o _ _ => se_has_peer e = true -> o <> OPanic
@@ -1298,7 +1358,7 @@ Definition case_obs_ok (c : case) : Prop :=
 
 Theorem check_case_sound c : check_case c = [] -> case_obs_ok c.
 Proof.
-  destruct c as [targets steps|e f o code synced|jvalid qt rs o evs leaves|jvalid dt qt with_ts rs o recs|mrs];
+  destruct c as [opts targets steps|e f o code synced|jvalid qt rs o evs leaves|jvalid dt qt with_ts rs o recs|mrs];
     cbn [check_case case_obs_ok].
   - destruct (existsb (String.eqb "") targets) eqn:Et; [|apply check_ingest_sound].
     exact (fun _ => I).
